@@ -550,6 +550,51 @@ pub fn lattice_candle_stream(max_len: usize) -> SBoxedStrategy<CandleStream> {
 		.sboxed()
 }
 
+/// Exactly linear stretches on the 1/4-tick lattice, each longer than the window `n`: rise, fall or rest with a
+/// constant step of k ticks per bar, bodies without wicks (or wicks of whole ticks), so that a window can hold a
+/// perfectly monotone-linear series (correlation with time exactly +-1) and every sum of prices or squares is exact.
+pub fn ramp_candle_stream_n(n: u32, max_len: usize) -> SBoxedStrategy<CandleStream> {
+	let n = n.max(2) as usize;
+	proptest::collection::vec((0u8..6, 1u8..=8, 0u8..4, 0u8..3, 0u8..4), 2..8)
+		.prop_map(move |segs| {
+			let tick = 0.25f64;
+			let mut prev = 100.0f64;
+			let mut cs = Vec::new();
+			for (kind, k, len_sel, wick, vol) in segs {
+				let len = [n + 1, n + 3, 2 * n + 1, n / 2 + 1][len_sel as usize];
+				let step = match kind {
+					0 | 1 => k as f64 * tick,
+					2 | 3 => -(k as f64) * tick,
+					4 => 0.0,
+					_ => if k % 2 == 0 { 8.0 * tick } else { -8.0 * tick },
+				};
+				for i in 0..len {
+					if cs.len() >= max_len {
+						break;
+					}
+					let mut c = prev + step;
+					if c < 4.0 || c > 1.0e4 {
+						// turn around instead of leaving the lattice range
+						c = prev - step;
+					}
+					let o = prev;
+					let w = wick as f64 * tick;
+					let (h, l) = (o.max(c) + w, (o.min(c) - w).max(tick));
+					let v = match vol {
+						0 => 100.0,
+						1 => if i % 3 == 0 { 0.0 } else { 50.0 },
+						2 => 1.0 + i as f64,
+						_ => 1.0e6,
+					};
+					cs.push(C5 { o: vt(o), h: vt(h), l: vt(l), c: vt(c), v: vt(v) });
+					prev = c;
+				}
+			}
+			CandleStream { n: n as u32, cs }
+		})
+		.sboxed()
+}
+
 pub fn is_valid_c5(c: &C5) -> bool {
 	c.l <= c.o && c.l <= c.c && c.o <= c.h && c.c <= c.h && c.l > 0.0 && c.v >= 0.0 && c.h.is_finite() && c.v.is_finite()
 }
